@@ -58,6 +58,7 @@ type GenResult struct {
 	PbContent  string
 	GogoErr    string
 	CompileErr string
+	RootsOrdered []string // roots in the order of their GenSchema functions
 	Dir        string // package dir (relative to module) of the struct package
 	TfDir      string // package dir of the terraform package
 	Roots      []string
@@ -271,6 +272,9 @@ func Analyse(e *Env, r *GenResult) {
 				name = rb.String() + "." + name
 			}
 			r.Funcs[name] = sigSpace.ReplaceAllString(b.String(), " ")
+			if d.Recv == nil && strings.HasPrefix(name, "GenSchema") {
+				r.RootsOrdered = append(r.RootsOrdered, strings.TrimPrefix(name, "GenSchema"))
+			}
 			start := d.Pos()
 			if d.Doc != nil {
 				start = d.Doc.Pos()
@@ -367,6 +371,15 @@ func Layout(e *Env, r *GenResult) bool {
 	ioutil.WriteFile(filepath.Join(pkdir, "x.pb.go"), []byte(r.PbContent), 0o644)
 	ioutil.WriteFile(filepath.Join(pkdir, "casts.go"), []byte(fmt.Sprintf(castsGo, "pk")), 0o644)
 	ioutil.WriteFile(filepath.Join(tfdir, "x_terraform.go"), []byte(r.Content), 0o644)
+	// unrelated dependency files are imported by the struct package: give them an (empty) Go package
+	for _, d := range p.Spec.Deps {
+		if strings.HasPrefix(d.GoPackage, "verifcorpus/") {
+			dd := filepath.Join(e.Src, strings.TrimPrefix(d.GoPackage, "verifcorpus/"))
+			os.MkdirAll(dd, 0o755)
+			base := d.GoPackage[strings.LastIndex(d.GoPackage, "/")+1:]
+			ioutil.WriteFile(filepath.Join(dd, "stub.go"), []byte("package "+base+"\n"), 0o644)
+		}
+	}
 	tfpkg := r.Package
 	if tfpkg == "" {
 		tfpkg = "pk"
@@ -381,7 +394,10 @@ func Layout(e *Env, r *GenResult) bool {
 	}
 	ioutil.WriteFile(filepath.Join(tfdir, "hooks.go"), []byte(hb.String()), 0o644)
 
-	// registry
+	// registry (only for programs the driver runs)
+	if p.NoRun {
+		return true
+	}
 	regdir := filepath.Join(e.Src, p.ID, "reg")
 	os.MkdirAll(regdir, 0o755)
 	var rb strings.Builder
@@ -537,3 +553,34 @@ func Generate(e *Env, progs []*spec.Program) []*GenResult {
 
 // Since reports elapsed seconds.
 func Since(t time.Time) float64 { return float64(time.Since(t).Milliseconds()) / 1000 }
+
+// Repeat runs the plugin n more times on every program and returns the content hashes (C14).
+func Repeat(e *Env, progs []*spec.Program, n int) map[string][]string {
+	out := map[string][]string{}
+	var mu sync.Mutex
+	var wg sync.WaitGroup
+	sem := make(chan struct{}, 16)
+	for _, p := range progs {
+		if p.ExpectFail {
+			continue
+		}
+		wg.Add(1)
+		go func(p *spec.Program) {
+			defer wg.Done()
+			sem <- struct{}{}
+			defer func() { <-sem }()
+			for k := 0; k < n; k++ { // sequential per program: the runs share the configuration file
+				r := RunPlugin(e, p)
+				h := r.SHA
+				if r.Exit != 0 {
+					h = fmt.Sprintf("exit%d", r.Exit)
+				}
+				mu.Lock()
+				out[p.ID] = append(out[p.ID], h)
+				mu.Unlock()
+			}
+		}(p)
+	}
+	wg.Wait()
+	return out
+}
